@@ -51,7 +51,7 @@ def Result.isRaised {ρ : Type} : Result ρ → Bool
 /-- `sql_query.replace('`', '')` -/
 def stripBackticks (s : String) : String := String.ofList (s.toList.filter (· != '`'))
 
-/-- the repaired variant (fixes/C17_7.diff, `strip_backticks`): a scanner that drops back-tick IDENTIFIER quotes and
+/-- the live code (`strip_backticks`, since c68d0a8): a scanner that drops back-tick IDENTIFIER quotes and
 copies `'…'` literals (with `\\x` escapes) verbatim.  State: inside a literal / inside a back-tick identifier /
 the previous character of the literal was a backslash. -/
 def stripOutsideAux : (inStr inId esc : Bool) → List Char → List Char
@@ -69,7 +69,8 @@ def stripOutsideAux : (inStr inId esc : Bool) → List Char → List Char
 def stripOutside (s : String) : String := String.ofList (stripOutsideAux false false false s.toList)
 
 /-- the text returned by the fallback branch: `str(ast_query)`; when `self.dialect.name == 'postgresql'` the back-ticks are
-removed — all of them (`keepLiteral = false`, the code today) or only those outside string literals (repaired) -/
+removed — only those outside string literals (`keepLiteral = true`, the live code; probed) or all of them
+(`keepLiteral = false`, the code before the repair) -/
 def fallbackText (keepLiteral : Bool) (dialectName : String) (s : String) : String :=
   if dialectName == "postgresql" then (if keepLiteral then stripOutside s else stripBackticks s) else s
 
@@ -97,9 +98,9 @@ structure Tables where
   /-- probed behaviour of `getattr(list, m)(column)` / `getattr(list, m)(list)`: "attr" | "type" | "ok" -/
   listOps : List (String × String × String)
   textHas : List String
-  /-- probed: `to_expression(Tuple)` is a Python list (today) rather than `sa.tuple_` (fixes/C17_1.diff) -/
+  /-- probed: `to_expression(Tuple)` is a Python list (the code before 8584708) rather than `sa.tuple_` (live: false) -/
   tupleIsList : Bool := true
-  /-- probed: the class of `RenderError` as the wrapper sees it (`exception` today, `sa` with fixes/C17_3.diff) -/
+  /-- probed: the class of `RenderError` as the wrapper sees it (live: `sa`; `exception` before 5bca26a) -/
   dupExc : Exc := .exception
 
 /-- the probed class name of `RenderError` ("exception" | "sa" | "notImpl") -/
